@@ -387,9 +387,11 @@ def oracle(text, cur, opname, m, n, obs, tobj, failed, alone):
         if obs["reg"] is not None and obs["reg"][0] != ord("q"):
             return ("named-register operator wrote register %r instead of the typed register 'q'" % (chr(obs["reg"][0]) if obs["reg"][0] > 0 else "?"),
                     "register-name-from-motion-keys")
-        if obs["reg"] is None and (t1 != text or cls == "yank") and not failed:
-            return ("named-register operator did not write the typed register 'q' (the name is read from the text object's key sequence)",
-                    "register-name-from-motion-keys")
+        if obs["reg"] is None and cls == "yank" and not failed and tobj is not None and tobj[2] in (0, 1):
+            lo_, hi_ = cur + min(tobj[0], tobj[1]), cur + max(tobj[0], tobj[1]) + (1 if tobj[2] == 1 else 0)
+            if 0 <= lo_ < hi_ <= len(text) and text[lo_:hi_] != "\n":
+                return ("named-register yank of a non-empty span did not write the typed register 'q' (the name is read from the text object's key sequence)",
+                        "register-name-from-motion-keys")
         if obs["clip"] is not None:
             return ("named-register operator changed the unnamed clipboard", "register-clipboard")
     elif obs["reg"] is not None:
@@ -438,6 +440,7 @@ def oracle(text, cur, opname, m, n, obs, tobj, failed, alone):
             return ("delete: result is not the text with one contiguous span removed", "delete-not-contiguous:" + grp)
         ok = False
         why = "span"
+        why_reg = False     # some candidate span was fine except for the register content
         for a in cands:
             b = a + k
             removed = text[a:b]
@@ -465,11 +468,16 @@ def oracle(text, cur, opname, m, n, obs, tobj, failed, alone):
                     continue
             else:
                 if data is None or unS(data[0]) != exp or data[1] != et:
-                    why = "register does not hold exactly the removed characters with the right type"
+                    why_reg = True
                     continue
             ok = True
             break
         if not ok:
+            if why_reg:
+                why = "register does not hold exactly the removed characters with the right type"
+            if with_reg and obs["reg"] is None and why_reg:
+                return ("delete/change into register 'q': the removed text was not stored (the register name is read from the text object's key sequence)",
+                        "register-name-from-motion-keys")
             return ("delete/change: " + why, "delete-span:" + grp)
     elif cls == "yank":
         pass
@@ -696,11 +704,6 @@ def main(tier):
     chk.coverage["input_distribution"] = dict(dist, corpus=len(corpus), failed_or_empty_motions=nfailed,
                                               oracle_families={"%s/%s" % k: v for k, v in sorted(fam_count.items())})
 
-    def tagger(c, a, m):
-        i = tagger.idx.get(id(c))
-        return {"op": "?"}
-    tagger.idx = {}
-
     def tag2(c, a, m):
         # c is the model case: [text, cur, op, arg, keys, tok, fix]
         fields = ["status", "text", "cursor", "clipboard", "register", "insert-mode", "text-object", "failed"]
@@ -843,11 +846,31 @@ def replay(data):
             if m != sx_norm(res):
                 rc = 1
         elif "case" in rep:
+            # a correspondence replay holds the model case; rebuild the implementation run from it
             mc = rep["case"]
-            print("model case %r\n  impl  %r\n  model %r" % (mc, show_res(rep.get("impl")), show_res(rep.get("model"))))
-            m = run_model("c08", [mc])[0]
-            print("  model now: %r" % (show_res(m),))
-            rc = 1
+            print("model case %r\n  impl then  %r\n  model then %r" % (mc, show_res(rep.get("impl")), show_res(rep.get("model"))))
+            text, cur, spec, arg, keys, tok, fx = unS(mc[0]), mc[1], tuple(mc[2]), mc[3], mc[4], tuple(mc[5]), mc[6]
+            opname = [k for k, v in OPS.items() if tuple(v[1]) == spec]
+            c = None
+            if opname and fx == 1 and tok[0] != 0:
+                mn = [k for k, v in MOTIONS.items() if v["tok"] == tok and [ord(x) if len(x) == 1 else -1 for x in v["keys"]] == keys]
+                if mn:
+                    c = key_case(text, cur, opname[0], mn[0], arg if arg > 1 else None, None)
+            elif opname and fx == 0 and tok[0] == 0:
+                c = ("O", text, cur, opname[0], (tok[1], tok[2], tok[3]), arg, [chr(k) for k in keys])
+            if c is None:
+                print("  (cannot rebuild the key sequence of this case)")
+                m = run_model("c08", [mc])[0]
+                print("  model now: %r" % (show_res(m),))
+                rc = 1
+            else:
+                res, obs, tobj, failed, alone = run_impl(sess, c)
+                print("  " + describe_case(c))
+                print("  impl now   %r" % (show_res(sx_norm(res)),))
+                m = run_model("c08", [model_case(c, tobj)])[0]
+                print("  model now  %r" % (show_res(m),))
+                print("  model agrees" if m == sx_norm(res) else "  MODEL AND IMPLEMENTATION DIFFER")
+                rc = 0 if m == sx_norm(res) else 1
         else:
             print(rep)
             rc = 1
